@@ -15,7 +15,9 @@ open Proto Rng
           sequential trials whose minimisation may raise -> rows:<…> err:<0|1> rss:<seed>:<pos> m:<…>
       cobj <right> <rejectsNaN> <atol> <na|ndim of items> <ndim of p> <np.sum(p)> <items> <ps> <us> -> REJ:<class> | ok:<items|ERR>
       ncpu <cfg|-> <local|->  -> ok:<n> | ERR:value
-      labels <start> <file> <cur> <pos> <ncpu> <tables>  -> seed labels of the rows an extension appends
+      labels <start> <file> <cur> <pos> <n> <ncpu> <tables>  -> seed labels of the rows an extension appends
+      timehist <edges> <seed:pos,…> <step/step/…> <tables>   step = d,<svc>,<tmin|n>,<tmax|n>,<size> | s,<edges ;-sep> | o,<svc>,<k> | r,<svc>,<seed>
+          -> times:<floats|ERR>/… svcs:<seed:pos>,…
       extfile <start> <n> <ncpu> <seed> <pos> <file> <grid1> <grid2> <maxEv> <thr> <maxRep> <npar> <lo> <hi> <tables>
           grid = s:<m> | r2:<a>,<b> | r3:<a>,<b>,<step> | a:<list>
           -> rows:<…> file:<labels of the new file> rss:<seed>:<pos>  |  ERR:<index|value|runtime> rss:<…>
@@ -135,6 +137,19 @@ def pGrid (s : String) : GridArg Float :=
   | ["a", xs] => .array (pList pF xs)
   | _ => .array []
 
+def pOptF (s : String) : Option Float := if s == "n" then none else some (pF s)
+
+/-- `d,<svc>,<tmin|n>,<tmax|n>,<size>` | `s,<edge;edge;…>` | `o,<svc>,<k>` | `r,<svc>,<seed>` -/
+def pTOp (s : String) : Option (TOp (List (Float × Float)) (Option Float × Option Float)) :=
+  match s.splitOn "," with
+  | ["d", svc, a, b, size] =>
+    let win := if a == "n" && b == "n" then none else some (pOptF a, pOptF b)
+    some (.draw svc.toNat! win size.toNat!)
+  | ["s", es] => some (.setIvs (Livetime.unflat ((es.splitOn ";").map pF)))
+  | ["o", svc, k] => some (.other svc.toNat! k.toNat!)
+  | ["r", svc, seed] => some (.reseed svc.toNat! seed.toNat!)
+  | _ => none
+
 def pForm (s : String) : ArgForm := if s == "na" then .notArray else .array s.toNat!
 
 def answer (line : String) : String :=
@@ -203,8 +218,8 @@ def answer (line : String) : String :=
       match getNcpu (o c) (o l) with
       | .ok k => s!"ok:{k}"
       | .error _ => "ERR:value"
-  | ["labels", st, file, cur, pos, ncpu, tabs] =>
-      fListD toString (extendLabels (genOf (parseTables tabs)) id (pN st) (pList pN file) (pN cur) (pN pos) (pN ncpu))
+  | ["labels", st, file, cur, pos, n, ncpu, tabs] =>
+      fListD toString (extendLabels (genOf (parseTables tabs)) id (pN st) (pList pN file) (pN cur) (pN pos) (pN n) (pN ncpu))
   | ["extfile", st, n, ncpu, seed, pos, file, g1, g2, maxEv, thr, maxRep, npar, lo, hi, tabs] =>
       -- extend_trial_data_file(ana, rss, n, trial_data, mean_n_sig=g1, mean_n_sig_null=g2, ncpu) on the synthetic analysis
       let clen := fun (x : Float) => if x ≤ 0 then 0 else x.ceil.toUInt64.toNat
@@ -223,6 +238,18 @@ def answer (line : String) : String :=
       | (.ok (file', rows), w') =>
         let rs := if rows.isEmpty then "-" else String.intercalate "|" (rows.map fRow)
         s!"rows:{rs} file:{fListD toString file'} rss:{fStream (w' 0)}"
+  | ["timehist", ivs, svcs, steps, tabs] =>
+      -- a history on ONE Livetime/TimeGenerator object and several services (refs 0..): executed with `trun`
+      let gen := genOf (parseTables tabs)
+      let sv := (svcs.splitOn ",").filterMap pStream
+      let w : World := fun r => sv.getD r ⟨0, 0⟩
+      let ops := (steps.splitOn "/").filterMap pTOp
+      let r := trun gen (ltCfg dbl) ⟨Livetime.unflat (pList pF ivs), none, w⟩ ops
+      let outs := r.2.filterMap (fun o => o.map (fun t => match t with
+        | some ts => fListD fF ts
+        | none => "ERR"))
+      let fin := (List.range sv.length).map (fun k => fStream (r.1.world k))
+      s!"times:{String.intercalate "/" outs} svcs:{String.intercalate "," fin}"
   | _ => "bad-op"
 
 def main : IO Unit := do loop (← IO.getStdin) answer
